@@ -258,6 +258,36 @@ def shared_index_space(R, rep, rule="R5"):
         rep.unresolved(rule, "index-keys", "no enumerate index is used as a table key in the matcher (the per-line tables are expected to be keyed by position)")
 
 
+def day_batches(R, rep, rule="R6"):
+    """A day's lines are processed together, whatever securities they belong to: the scan that finds the end of the day compares
+    DATES only. A scan that also stops where the ticker changes cuts one security's day into several batches as soon as another
+    security's line is written in between, and the in-day order (events, purchases, disposals) is lost (seeded change C09-s6)."""
+    F = R.F
+    n = 0
+    for b in [R.require("dayloop"), R.require("prepass")] + [hb for role in ("dayloop", "prepass") for hb in R.region(R.require(role)).bodies.values()]:
+        tb = None
+        for h, blks in b.loops():
+            if len(blks) > 12 or any(b.term(x)["k"] == "call" and b.term(x)["callee"] in F.bodies for x in blks):
+                continue
+            incs = [s for x in blks for s in b.stmts(x) if s.get("rv", {}).get("k") == "bin" and s["rv"]["op"] in ("AddWithOverflow", "Add")
+                    and b.local_ty(s["lhs"]["l"]).startswith(("usize", "(usize"))]
+            if not incs:
+                continue
+            tb = tb or R.terms(b, 0)
+            conds = [tb.operand(b.term(x)["discr"]) for x in blks if b.term(x)["k"] == "switch"]
+            if not any(".date" in show(c_) for c_ in conds):
+                continue
+            n += 1
+            extra = [show(c_)[:70] for c_ in conds if ".ticker" in show(c_)]
+            rep.ob(rule, f"{b.short}:day-scan@{h}", not extra, "the end of a day is found by comparing dates only" if not extra else
+                   f"the day scan also stops under {extra[:1]}: a security's lines of one date are split into several batches by another security's line",
+                   b.loc(), key=f"{rule}:{b.short}:day-scan-ticker")
+    seen = set()
+    rep.count("day_scans", n)
+    if n < 2:
+        rep.note(f"{rule}: only {n} index-advancing day scans found (a day may also be delimited by an iterator grouping, which this rule does not judge)")
+
+
 def controls(pctx, rep):
     from roles import misaligned_index_keys, Roles as _Roles
     F = pctx.F
@@ -273,6 +303,7 @@ def controls(pctx, rep):
 def run(ctx, rep):
     R = Roles(ctx.F)
     shared_index_space(R, rep)
+    day_batches(R, rep)
     keyed_access(R, rep)
     lookahead_guards(R, rep)
     merge_guard(R, rep)
